@@ -189,6 +189,8 @@ class RefRun:
                 return len(self.fs.t[p][1])
             return 'DIRSIZE' if kd == 'd' else '!FileNotFoundError'
         if kind in ('read', 'readh'):
+            if '\0' in p:
+                return '!ValueError'      # a name no file can have: open() refuses it (os.path.exists() says False)
             if kd == 'f':
                 return self.fs.t[p][1].decode('latin1')
             return '!IsADirectoryError' if kd == 'd' else '!FileNotFoundError'
